@@ -503,6 +503,14 @@ func (e *Explorer) NoteAlloc(size *Term, where, fn string, limit uint64) {
 	}
 	big := And(Cmp("bvult", BV(64, limit), size), Cmp("bvsle", i64_0, size))
 	if e.feasible(big, "alloc "+where) {
+		// prefer a model that exceeds the ceiling by a wide margin: the native replay can only measure total bytes
+		// allocated, so a request a few bytes above a small ceiling could not be told from noise
+		if limit < 1<<30 {
+			wide := And(Cmp("bvult", BV(64, 4*limit+65536), size), Cmp("bvsle", i64_0, size))
+			if e.feasible(wide, "alloc-wide "+where) {
+				big = wide
+			}
+		}
 		e.report("alloc", "allocation size can exceed ceiling", where, fn, e.knownSite("alloc", fn), big)
 	}
 }
